@@ -3,15 +3,16 @@
     Cones/SpecC13.v; proofs are in Cones/LemmasScal*.v.  Real-number interpretation of the
     models in Cones/{NN,SOC}.v, every dimension.
 
-    Still PARTIAL: the PSD cone (svec/mat index maps proved in Cones/PSDIndex.v when present;
-    the scaling itself rests on LAPACK contracts and is validated per call by the
-    correspondence run). *)
+    Still PARTIAL for the PSD cone: the LAPACK factorisations themselves (Cholesky, SVD) are
+    hypotheses of the PSD theorems, validated per call; λ∘/λ\, Δs offset and the Hs = skron(RRᵀ)
+    block of the PSD cone are validated per call only. *)
 From Coq Require Import List Reals Lra.
 Require Import Clarabel.Base.Ops Clarabel.Cones.Vec Clarabel.Cones.NN Clarabel.Cones.SOC
                Clarabel.Cones.SpecC15 Clarabel.Cones.SpecC13.
 Require Import Clarabel.Cones.LemmasScalNN Clarabel.Cones.LemmasScalSOC Clarabel.Cones.LemmasScalSOC2
                Clarabel.Cones.LemmasScalSOC3 Clarabel.Cones.PSDIndex Clarabel.Cones.SpecPSD
-               Clarabel.Cones.LemmasPSDIndex.
+               Clarabel.Cones.LemmasPSDIndex Clarabel.Cones.Mat Clarabel.Cones.SpecPSDScal
+               Clarabel.Cones.LemmasPSDScal Clarabel.Cones.LemmasPSDOps.
 Import ListNotations.
 Open Scope R_scope.
 
@@ -87,6 +88,23 @@ Theorem C13_psd_svec_isometry : stmt_psd_svec_isometry.
 Proof. exact psd_svec_isometry_ok. Qed.
 Theorem C13_psd_diag_index : stmt_psd_diag_index.
 Proof. exact psd_diag_index_ok. Qed.
+
+(** PSD cone: the Nesterov–Todd algebra of update_scaling, every n, from the contracts of the
+    LAPACK factorisations (hypothesis [psd_factors]: S = L1 L1ᵀ, Z = L2 L2ᵀ, L2ᵀ L1 = U Λ Vᵀ,
+    U, V orthogonal, λ > 0); the correspondence run validates these hypotheses on every call *)
+Theorem C13_psd_Rinv_R : stmt_psd_Rinv_R.
+Proof. exact psd_Rinv_R_ok. Qed.
+Theorem C13_psd_R_Rinv : stmt_psd_R_Rinv.
+Proof. exact psd_R_Rinv_ok. Qed.
+Theorem C13_psd_RtZR : stmt_psd_RtZR.
+Proof. exact psd_RtZR_ok. Qed.
+Theorem C13_psd_RinvSRinvt : stmt_psd_RinvSRinvt.
+Proof. exact psd_RinvSRinvt_ok. Qed.
+Theorem C13_psd_WZW : stmt_psd_WZW.
+Proof. exact psd_WZW_ok. Qed.
+(** mul_W / mul_Winv of the PSD cone in svec form: y <- α·(conjugation of x) + β·y for all α, β *)
+Theorem C13_psd_mul_W_affine : stmt_psd_mul_W_affine.
+Proof. exact psd_mul_W_affine_ok. Qed.
 
 (** non-vacuity *)
 Example C13_ex_normalised : soc_normalised [3; 2; 2].
